@@ -363,6 +363,51 @@ class Engine:
         self.assume(val == domain[-1])
         return domain[-1]
 
+    CONC = [1, 2, 4, 8, 16, 32, 64] + [v for v in range(0, 65) if v not in (1, 2, 4, 8, 16, 32, 64)]
+
+    def concretise(self, val, what='value'):
+        """Concretise a symbolic int by forking over its feasible values (fixed candidate order, so that
+        re-executions agree); more than the candidates 0..64 is unsupported."""
+        if not is_sym(val):
+            return val
+        for d in self.CONC:
+            if self.branch(val == d):
+                return d
+        raise Unsupported('%s: symbolic value outside 0..64 (concretise first)' % what)
+
+    def mul_operands(self, a, b):
+        """Operands of a product with at most one of them symbolic: an operand the path already pins to one
+        value (e.g. an alignment concretised by an earlier division) is replaced by that value; otherwise
+        fork over the second operand's values."""
+        if not (is_sym(a) and is_sym(b)):
+            return a, b
+        c = self.implied_const(b)
+        if c is not None:
+            return a, c
+        c = self.implied_const(a)
+        if c is not None:
+            return c, b
+        try:
+            return a, self.concretise(b, 'symbolic*symbolic')
+        except Unsupported:
+            raise Unsupported('symbolic*symbolic')
+
+    def implied_const(self, val):
+        """The single value `val` can take on this path, or None."""
+        if not is_sym(val):
+            return val
+        if self.model is None:
+            if self.check() != z3.sat:
+                raise Infeasible()
+            self.model = self.solver.model()
+        v = self.model.eval(val, model_completion=True)
+        if not hasattr(v, 'as_long'):
+            return None
+        v = v.as_long()
+        if self.feasible(val != v):
+            return None
+        return v
+
     def assume(self, cond):
         if isinstance(cond, bool):
             if not cond:
@@ -431,8 +476,7 @@ class Engine:
                 r = a - b
                 ov = (r < 0)
             else:
-                if is_sym(a) and is_sym(b):
-                    raise Unsupported('symbolic*symbolic')
+                a, b = self.mul_operands(a, b)
                 r = a * b
                 ov = (r >= U64)
             return Agg('tuple', None, [r, ov])
@@ -441,16 +485,15 @@ class Engine:
         if op in ('Sub', 'SubUnchecked'):
             return a - b
         if op in ('Mul', 'MulUnchecked'):
-            if is_sym(a) and is_sym(b):
-                raise Unsupported('symbolic*symbolic')
+            a, b = self.mul_operands(a, b)
             return a * b
         if op == 'Div':
             if is_sym(b):
-                raise Unsupported('division by symbolic value (concretise first)')
+                b = self.concretise(b, 'division by symbolic value')
             return (a / b) if is_sym(a) else a // b
         if op == 'Rem':
             if is_sym(b):
-                raise Unsupported('rem by symbolic value')
+                b = self.concretise(b, 'rem by symbolic value')
             return a % b
         if op == 'Eq':
             return self.eq(a, b)
